@@ -400,6 +400,7 @@ class Epoch(object):
         """
 
         # The best approach here is first convert to JDE, and then adjust secs
+        civil_y, civil_m = y, m     # Leap seconds depend on the civil month
         if m <= 2:
             y -= 1
             m += 12
@@ -417,13 +418,13 @@ class Epoch(object):
                 utc2tt = True
         # In this case, UTC to TT correction is applied automatically
         if utc2tt:
-            if y >= 1972:
+            if civil_y >= 1972:
                 deltasec += 32.184  # Difference between TT and TAI
                 deltasec += 10.0  # Difference between UTC and TAI in 1972
-                deltasec += Epoch.leap_seconds(y, m)
+                deltasec += Epoch.leap_seconds(civil_y, civil_m)
         else:  # Correction is NOT automatic
             if leap_seconds != 0.0:  # We apply provided leap seconds
-                if y >= 1972:
+                if civil_y >= 1972:
                     deltasec += 32.184  # Difference between TT and TAI
                     deltasec += 10.0  # Difference between UTC-TAI in 1972
                     deltasec += leap_seconds
